@@ -160,6 +160,9 @@ pub struct ExecCfg {
     /// > 0: bound on the scheduling points a try operation may execute in a row without any
     /// other thread changing shared state in between (C18 for every try call of an execution)
     pub try_quiet_bound: u64,
+    /// when the schedule bytes are used up start again at the first one (long churn runs: the
+    /// preemptions do not stop after the first few hundred decisions)
+    pub cyclic: bool,
 }
 
 impl Default for ExecCfg {
@@ -172,6 +175,7 @@ impl Default for ExecCfg {
             weak_cas_fail: false,
             quarantine: false,
             try_quiet_bound: 0,
+            cyclic: false,
         }
     }
 }
@@ -400,6 +404,9 @@ impl State {
     }
 
     fn next_byte(&mut self) -> Option<u8> {
+        if self.cfg.cyclic && self.byte_pos >= self.cfg.schedule.bytes.len() {
+            self.byte_pos = 0;
+        }
         let b = self.cfg.schedule.bytes.get(self.byte_pos).copied();
         if b.is_some() {
             self.byte_pos += 1;
